@@ -692,3 +692,157 @@ def c16_r11(ctx):
                    detail="nothing may have been added to `%s` yet: IndexError escapes the parser" % nm, loc=ctx.nodeloc(f, x))
     if n < 2:
         raise AnalysisError("only %d end-indexing sites found in the parser" % n)
+
+
+def _minlen_analysis(f):
+    """forward must-analysis of a lower bound on len(x) for local lists that are only ever bound to list displays and changed by
+    append/pop/insert/extend: state = frozenset((name, bound)).  -> (cfg, state_in per node id, tracked names)"""
+    an = norm.assigned_names(f.node)
+    tracked = set()
+    for name, vals in an.items():
+        vals = [v for v in vals if v is not None]
+        if vals and all(isinstance(v, ast.List) for v in vals) and len(vals) == len(an[name]):
+            tracked.add(name)
+    # a tracked list must not be rebound by loops/with/unpacking or passed where it could be emptied
+    for x in ast.walk(f.node):
+        if isinstance(x, (ast.For, ast.comprehension)):
+            for t in ast.walk(x.target):
+                if isinstance(t, ast.Name):
+                    tracked.discard(t.id)
+        if isinstance(x, ast.Call) and isinstance(x.func, ast.Attribute) and isinstance(x.func.value, ast.Name) \
+                and x.func.value.id in tracked and x.func.attr in ("clear", "remove", "__delitem__"):
+            tracked.discard(x.func.value.id)
+        if isinstance(x, ast.Delete):
+            for t in x.targets:
+                for y in ast.walk(t):
+                    if isinstance(y, ast.Name):
+                        tracked.discard(y.id)
+        if isinstance(x, (ast.Subscript,)) and isinstance(x.ctx, (ast.Store, ast.Del)) and isinstance(x.value, ast.Name) \
+                and isinstance(x.slice, ast.Slice):
+            tracked.discard(x.value.id)
+    if not tracked:
+        return None
+    g = cfgmod.cfg_of(f, exc_edges=False)
+
+    def get(state, nm):
+        for k, v in state:
+            if k == nm:
+                return v
+        return None
+
+    def put(state, nm, v):
+        return frozenset([(k, w) for k, w in state if k != nm] + ([(nm, v)] if v is not None else []))
+
+    def transfer(node, state):
+        if node.ast is None:
+            return state
+        for e in cfgmod.node_exprs(node):
+            if isinstance(e, ast.Assign) and len(e.targets) == 1 and isinstance(e.targets[0], ast.Name) and e.targets[0].id in tracked \
+                    and isinstance(e.value, ast.List):
+                state = put(state, e.targets[0].id, len([x for x in e.value.elts if not isinstance(x, ast.Starred)]))
+                continue
+            for c in ast.walk(e):
+                if isinstance(c, ast.Call) and isinstance(c.func, ast.Attribute) and isinstance(c.func.value, ast.Name) \
+                        and c.func.value.id in tracked:
+                    cur = get(state, c.func.value.id)
+                    if cur is None:
+                        continue
+                    if c.func.attr in ("append", "insert"):
+                        state = put(state, c.func.value.id, min(cur + 1, 8))
+                    elif c.func.attr == "pop":
+                        state = put(state, c.func.value.id, max(cur - 1, 0))
+        return state
+
+    def bound_from(test, truth):
+        """(name, lower bound) a test outcome implies, or None"""
+        t = test
+        if isinstance(t, ast.Name) and t.id in tracked:
+            return (t.id, 1) if truth else None
+        if isinstance(t, ast.Call) and isinstance(t.func, ast.Name) and t.func.id == "len" and len(t.args) == 1 \
+                and isinstance(t.args[0], ast.Name) and t.args[0].id in tracked:
+            return (t.args[0].id, 1) if truth else None
+        if isinstance(t, ast.Compare) and len(t.ops) == 1:
+            l, r, op = t.left, t.comparators[0], t.ops[0]
+
+            def lenof(x):
+                return x.args[0].id if (isinstance(x, ast.Call) and isinstance(x.func, ast.Name) and x.func.id == "len" and len(x.args) == 1
+                                        and isinstance(x.args[0], ast.Name) and x.args[0].id in tracked) else None
+
+            def num(x):
+                return x.value if isinstance(x, ast.Constant) and isinstance(x.value, int) and not isinstance(x.value, bool) else None
+            flip = {ast.Lt: ast.Gt, ast.Gt: ast.Lt, ast.LtE: ast.GtE, ast.GtE: ast.LtE, ast.Eq: ast.Eq, ast.NotEq: ast.NotEq}
+            if lenof(r) is not None and num(l) is not None:
+                l, r, op = r, l, flip[type(op)]()
+            nm, k = lenof(l), num(r)
+            if nm is None or k is None:
+                return None
+            neg = {ast.Lt: ast.GtE, ast.GtE: ast.Lt, ast.Gt: ast.LtE, ast.LtE: ast.Gt, ast.Eq: ast.NotEq, ast.NotEq: ast.Eq}
+            o = type(op) if truth else neg.get(type(op))
+            if o is ast.Gt:
+                return (nm, k + 1)
+            if o is ast.GtE:
+                return (nm, k)
+            if o is ast.Eq:
+                return (nm, k)
+            if o is ast.NotEq and k == 0:
+                return (nm, 1)
+        return None
+
+    def edge(src, label, dst, state):
+        if src.kind == "test" and isinstance(label, tuple) and label[0] in ("T", "F"):
+            b = bound_from(src.ast, label[0] == "T")
+            if b is not None:
+                cur = get(state, b[0])
+                if cur is not None and b[1] > cur:
+                    state = put(state, b[0], b[1])
+        return state
+
+    def meet(a, b):
+        da, db = dict(a), dict(b)
+        return frozenset((k, min(da[k], db[k])) for k in da if k in db)
+    sin, _ = cfgmod.forward(g, frozenset(), transfer, edge_transfer=edge, meet=meet, include_exc=False)
+    return g, sin, tracked
+
+
+@rule("C16", "R12", "K2", "a stack the parser pushes and pops is indexed or popped only where it cannot be empty",
+      min_instances=1,
+      clause="For every local list of a whoosh.qparser function that is only ever bound to list displays and changed through "
+             "append/insert/pop: a lower bound on its length is propagated along every path (display length, +1 per append, -1 per pop, "
+             "raised by len()/truth tests on the taken branch, minimum at joins and around loops). x[-1], x[0] and x.pop() occur only "
+             "where the bound is at least 1 -- otherwise some token sequence (an unmatched closing bracket) makes parse() raise IndexError.")
+def c16_r12(ctx):
+    prog = ctx.prog
+    n = 0
+    for f in prog.functions.values():
+        if not f.module.name.startswith("whoosh.qparser"):
+            continue
+        r = _minlen_analysis(f)
+        if r is None:
+            continue
+        g, sin, tracked = r
+        for node in g.nodes:
+            if node.ast is None or sin[node.id] is None:
+                continue
+            state = dict(sin[node.id])
+            for e in cfgmod.node_exprs(node):
+                # within one statement, what is evaluated first comes first: only the first use per name is judged
+                judged = set()
+                for x in ast.walk(e):
+                    nm = None
+                    what = None
+                    if isinstance(x, ast.Subscript) and isinstance(x.ctx, ast.Load) and isinstance(x.value, ast.Name) \
+                            and x.value.id in tracked and norm.canon(x.slice) in ("(-1)", "0", "-1"):
+                        nm, what = x.value.id, norm.canon(x)
+                    elif isinstance(x, ast.Call) and isinstance(x.func, ast.Attribute) and x.func.attr == "pop" and not x.args \
+                            and isinstance(x.func.value, ast.Name) and x.func.value.id in tracked:
+                        nm, what = x.func.value.id, norm.canon(x)
+                    if nm is None or nm in judged or nm not in state:
+                        continue
+                    judged.add(nm)
+                    n += 1
+                    ctx.saw(f)
+                    ctx.ob(f, state[nm] >= 1, "%s happens only where `%s` holds at least one element" % (what, nm),
+                           detail="on some path `%s` may be empty here (length bound %d): IndexError escapes the parser" % (nm, state[nm]),
+                           loc=ctx.nodeloc(f, x))
+    if n < 1:
+        raise AnalysisError("no stack sites found in the parser")
